@@ -253,7 +253,17 @@ def run(ctx):
                     bad = f"the task does not run the declaring function ({coro!r})"
             ctx.check(bad is None, "R12.3", uid, f"handler contract, {data_label}", msg=f"{uid} for a service call with {data_label}: {bad}", key=f"service handler contract {data_label}",
                       node=f, rel=uid.split("::")[0])
-        inner = [s for s in f.body if isinstance(s, ast.AsyncFunctionDef)]
+        # the coroutine function the handler starts as the run's task: nested in the handler, in its factory, a method or a module-level coroutine
+        inner = []
+        for st in body_walk(f):
+            if isinstance(st, ast.Call) and call_name(st) == "Function.create_task" and st.args:
+                co = st.args[0]
+                if isinstance(co, ast.Name):
+                    defs = [m.value for m in body_walk(f) if isinstance(m, ast.Assign) and len(m.targets) == 1 and isinstance(m.targets[0], ast.Name) and m.targets[0].id == co.id]
+                    co = defs[-1] if defs else co
+                cu = program.resolve_callable(program.unit(uid), co.func) if isinstance(co, ast.Call) else None
+                if cu is not None and isinstance(cu.node, ast.AsyncFunctionDef):
+                    inner.append(cu.node)
         ok2 = bool(inner) and any(isinstance(t, ast.Try) and any(isinstance(h.type, ast.Name) and h.type.id in ("Exception", "BaseException") for h in t.handlers if h.type is not None) for t in ast.walk(inner[0]))
         ctx.check(ok2, "R12.3", uid, "the function call is protected", msg=f"{uid}: the service's function call is no longer wrapped in try/except Exception",
                   key="service call protected", node=f, rel=uid.split("::")[0])
